@@ -34,6 +34,7 @@ import PyomaVerif.Ops.MultiSetup
 import PyomaVerif.Ops.C15X
 import PyomaVerif.Ops.SsiArgs
 import PyomaVerif.Ops.GeoFile
+import PyomaVerif.Ops.Defaults
 /-! Line-protocol driver: one JSON object per line in, one JSON value per line out. -/
 open Lean PV PV.Codec
 
@@ -55,6 +56,7 @@ def allOps : List (String × (Json → Except String Json)) :=
   ++ PV.Ops.C15X.ops
   ++ PV.Ops.SsiArgs.ops
   ++ PV.Ops.GeoFile.ops
+  ++ PV.Ops.Defaults.ops
 
 def handle (line : String) : String :=
   match Json.parse line with
